@@ -449,9 +449,9 @@ void* generateProgramVectorRV64(uint8_t* buf, Program& prog, ProgramConfiguratio
 				emit32(0x414A0A33 + (dst << 7) + (dst << 15) + (src << 20));
 			}
 			else {
-				imm_to_x5(-imm, p);
-				// c.add x20 + dst, x5
-				emit16(0x9A16 + (dst << 7));
+				imm_to_x5(imm, p);
+				// sub x20 + dst, x20 + dst, x5
+				emit32(0x405A0A33 + (dst << 7) + (dst << 15));
 			}
 
 			last_modified[dst] = p;
